@@ -160,6 +160,12 @@ def runCase (cache : IO.Ref Cache) (ws : List String) : IO String := do
       let r := sendumpPlan s.file gf gd ms
       pure s!"{id} {showRes r fun o => s!"ok {o.clust} {o.dataOff} {o.endPtr}"} | site={site r}"
     | _, _, _, _ => pure s!"{id} bad-src"
+  | [id, "mixw", src, ed, gf, gd] =>
+    match ← loadSrc cache src ed, gf.toNat?, gd.toNat? with
+    | some s, some gf, some gd =>
+      let r := mixwPlan s.file gf gd
+      pure s!"{id} {showRes r fun o => s!"ok {o.nSen}"} | site={site r}"
+    | _, _, _ => pure s!"{id} bad-src"
   | id :: _ => pure s!"{id} bad-op"
   | [] => pure "bad-op"
 
